@@ -12,7 +12,7 @@ import (
 // C09 — tubes are isolated from each other and from earlier tubes with the same id.
 
 func init() {
-	Register(&Scenario{Name: "tube-isolation", Property: "C09", Fn: scIsolation})
+	Register(&Scenario{Name: "tube-isolation", Property: "C09", Fn: scIsolation, Yields: true})
 }
 
 const cellLen = 64
@@ -64,6 +64,10 @@ func scIsolation(r *Run) {
 	r.SetCfg("faultfree", faultFree)
 	r.SetCfg("net", fmt.Sprintf("%+v", *c))
 	mp := NewMuxPair(r, n, 0)
+	if r.Intn("cfg", 3) == 0 { // concurrent Create/Accept/reap under schedule perturbation
+		r.ArmYields([]string{"tubes.(*Muxer)"}, 1+r.Intn("cfg", 5), 1+r.Intn("cfg", 25), []float64{0.2, 1}[r.Intn("cfg", 2)])
+		r.YieldsOn(true)
+	}
 	muxOf := map[string]*tubes.Muxer{"A": mp.A, "B": mp.B}
 	parity := map[string]byte{"A": 0, "B": 1}
 
